@@ -28,6 +28,26 @@ CHECKS['C02'] = dict(
     note="TonCell transcription; TLC; stored hashes of the random prunings come from the library (inputs only)",
     tech="TLA+ level-hash spec model-checked by TLC (pruning invariance); TLC-generated exotic DAGs replayed; recorded masks/hashes/depths validated by TLC",
     ref="8/C02")
+CHECKS['C03'] = dict(
+    text="to_boc/from_boc round trips are recorded for TLC-enumerated and random DAGs (ordinary and exotic, cell-count and payload-width "
+         "boundaries) under all 6 option sets, three input forms and the cell/slice/builder entry points; TLC verifies that the parsed "
+         "structure is isomorphic to the source (content, type, reference lists, recursively). The format itself (TonBoc) is model-checked: "
+         "Decode(Encode(..)) = id under every encoder freedom.",
+    note="TonBoc transcription; isomorphism maps are untrusted hints checked by TLC; content de-duplication of the source heap in the driver",
+    tech="TLA+ BoC format spec model-checked by TLC; recorded round trips validated by TLC (structure isomorphism)", ref="8/C03")
+CHECKS['C04'] = dict(
+    text="Every byte string emitted by Cell.to_boc is decoded by the strict TLA+ decoder (header constraints, widths, forward references, "
+         "distinct cells, completion tags, level-mask bits, cumulative/doubled index, CRC-32C, exact length) and must decode to the source "
+         "DAG. The decoder is model-checked against the spec encoder under all freedoms and against corruption (MC_Boc).",
+    note="TonBoc.Decode is my reading of boc.tlb/boc.cpp; TonCrc anchored on catalogue vectors",
+    tech="strict TLA+ BoC decoder evaluated by TLC on library output (trace validation) + TLC model check Decode/Encode", ref="8/C04")
+CHECKS['C05'] = dict(
+    text="TLC enumerates every encoding of every small DAG under all encoder freedoms (sizes, offset widths, index, cache bits, CRC, stored "
+         "hashes with real SHA-256, 1-2 roots incl. repeated/non-first, every forward cell order, three magics); the driver derives "
+         "truncations, extensions, single-bit flips and reference corruptions; Cell.from_boc's result on each input is compared by TLC with "
+         "Decode of the very same bytes. FlipDetected/TruncExtendErr/BadRefErr are model-checked on the format.",
+    note="TonBoc transcription; corruption classes limited to those the property names; CRC re-sealing uses the library crc32c (validated by C18)",
+    tech="TLC-generated encodings (spec -> code) + TLC validation of parser outcomes against the strict TLA+ decoder", ref="8/C05")
 NOT_APPLICABLE = []
 def main():
     checks = []
